@@ -2,6 +2,7 @@
 C03 — inter-fragment bonds follow the base graph and the bonding-descriptor rules.
 """
 import collections
+import networkx as nx
 
 import gen_mol
 import impl
@@ -188,6 +189,22 @@ def dedicated_oracle(ctx, case, steps, ctor_err):
             return
 
 
+def written_oracle(ctx, case, steps, ctor_err):
+    """with unique labels every bond is forced: the bonds must join exactly the atoms the descriptors were
+    WRITTEN on (the templates come from the reader, so a descriptor the reader puts on the wrong atom is
+    invisible to the template-based accounting above) — i.e. the molecule that was cut comes back"""
+    oracle(ctx, case, steps, ctor_err)
+    if steps is None or steps[-1]['result'] != 'ok':
+        return
+    import gen_mol as gm
+    from props.c01 import nm, em_ref
+    fine = steps[-1]['fine_graph']
+    ref = gm.ref_from_case(case)
+    if not nx.is_isomorphic(fine, ref, node_match=nm, edge_match=em_ref):
+        ctx.fail(suites.slim(case), 'bonds do not join the atoms on which the (uniquely labelled) descriptors were written: '
+                                    'the resolved molecule is not the molecule that was cut')
+
+
 def compat_suite(ctx):
     from cgsmiles.resolve import compatible
     rng = ctx.rng('compat')
@@ -231,13 +248,16 @@ def run(ctx):
         if ctx.out_of_time():
             break
         if i % 3 == 0:
-            case = gen_mol.cut_case(rng, label_p=0.6)
+            lp = rng.choice([0.6, 1.0])
+            case = gen_mol.cut_case(rng, label_p=lp)
             case['legacy'] = rng.random() < 0.7
+            case['unique_labels'] = lp == 1.0
         elif i % 6 == 1:
             case = dedicated_case(rng)
         else:
             case = gen_mol.ambiguous_case(rng)
-        suites.run_resolve_case(ctx, 'resolve', case, oracle=dedicated_oracle if case.get('kind') == 'dedicated' else oracle)
+        suites.run_resolve_case(ctx, 'resolve', case, oracle=dedicated_oracle if case.get('kind') == 'dedicated' else
+                                (written_oracle if case.get('unique_labels') and case['legacy'] else oracle))
 
 
 def corpus_case(ctx, payload):
